@@ -743,3 +743,83 @@ Proof.
     apply in_concat. exists c. split; assumption.
 Qed.
 Close Scope Qc_scope.
+
+(* ---------- statements in the form used by Props/C11.v ---------- *)
+Lemma moveaxis_orders :
+  moveaxis_order 4 [3; 1; 2] [1; 2; 3] = [0; 3; 1; 2] /\ moveaxis_order 4 [1; 2; 3] [3; 1; 2] = [0; 2; 3; 1].
+Proof. split; reflexivity. Qed.
+
+Lemma moveaxis_explicit n h w c x :
+  moveaxis [n; h; w; c] [3; 1; 2] [1; 2; 3] x = nhwc_to_nchw n h w c x /\
+  moveaxis [n; c; h; w] [1; 2; 3] [3; 1; 2] x = nchw_to_nhwc n h w c x.
+Proof. split; [rewrite moveaxis_to_first by reflexivity; apply to_first_spec
+              | rewrite moveaxis_to_last by reflexivity; apply to_last_spec]. Qed.
+
+Lemma moveaxis_roundtrip n h w c x : length x = n * h * w * c ->
+  moveaxis [n; c; h; w] [1; 2; 3] [3; 1; 2] (moveaxis [n; h; w; c] [3; 1; 2] [1; 2; 3] x) = x /\
+  moveaxis [n; h; w; c] [3; 1; 2] [1; 2; 3] (moveaxis [n; c; h; w] [1; 2; 3] [3; 1; 2] x) = x.
+Proof. intro H. rewrite !moveaxis_to_first, !moveaxis_to_last by reflexivity.
+  split; [apply roundtrip_first_last | apply roundtrip_last_first]; exact H. Qed.
+
+Lemma moveaxis_adjoint n h w c g x : length x = n * h * w * c -> length g = n * h * w * c ->
+  dot (moveaxis [n; c; h; w] [1; 2; 3] [3; 1; 2] g) x = dot g (moveaxis [n; h; w; c] [3; 1; 2] [1; 2; 3] x).
+Proof. intros Hx Hg. rewrite moveaxis_to_first, moveaxis_to_last by reflexivity. apply transpose_adjoint; assumption. Qed.
+
+Lemma sample_positions h w c x g :
+  nhwc_to_nchw 1 h w c x = map (fun q => nthq x (first_reads h w c q)) (seq 0 (c * (h * w))) /\
+  nchw_to_nhwc 1 h w c g = map (fun p => nthq g (last_reads h w c p)) (seq 0 (h * (w * c))) /\
+  (forall p, p < h * w * c -> first_reads h w c (last_reads h w c p) = p) /\
+  (forall q, q < c * (h * w) -> last_reads h w c (first_reads h w c q) = q).
+Proof. split; [apply first_sample|]. split; [apply last_sample|]. split; [apply first_last_reads | apply last_first_reads]. Qed.
+
+Lemma wrapper_is_native (f : list Qc -> list Qc) (vjp : list Qc -> list Qc -> list Qc) h w c xs ts :
+  (forall x t, length (vjp x t) = length x) -> 1 <= h -> 1 <= w -> 1 <= c -> length ts = length xs ->
+  (forall x, In x xs -> length x = h * w * c) ->
+  wrapper_call f true [length xs; h; w; c] (concat xs) = map (native_out f true h w c) xs /\
+  wrapper_gradients vjp true [length xs; h; w; c] xs ts = map2 (native_grad vjp true h w c) xs ts.
+Proof. intros. split; [apply wrapper_call_first | apply wrapper_gradients_first]; assumption. Qed.
+
+Lemma wrapper_is_native_no_conversion (f : list Qc -> list Qc) (vjp : list Qc -> list Qc -> list Qc) tail xs ts :
+  (forall x t, length (vjp x t) = length x) -> 1 <= prod tail -> (forall x, In x xs -> length x = prod tail) ->
+  wrapper_call f false (length xs :: tail) (concat xs) = map f xs /\
+  wrapper_gradients vjp false (length xs :: tail) xs ts = map2 vjp xs ts.
+Proof. intros Hv HD Hxs. split.
+  - rewrite wrapper_call_last by assumption. reflexivity.
+  - rewrite wrapper_gradients_last by assumption. reflexivity. Qed.
+
+Lemma wrapper_grad_correct ks h w c xs ts : 1 <= h -> 1 <= w -> 1 <= c -> length ts = length xs ->
+  (forall x, In x xs -> length x = h * w * c) -> (forall k, In k ks -> class_ok (h * w * c) k) ->
+  fq_outputs ks true [length xs; h; w; c] (concat xs) = map (fquad_out (map (moved_class h w c) ks)) xs /\
+  fq_scores ks true [length xs; h; w; c] xs ts = map2 (fquad (map (moved_class h w c) ks)) xs ts /\
+  fq_gradients ks true [length xs; h; w; c] xs ts = map2 (fquad_grad (map (moved_class h w c) ks)) xs ts.
+Proof. intros. split; [apply fq_outputs_first; assumption|]. split; [apply fq_scores_first | apply fq_gradients_first]; assumption. Qed.
+
+Lemma wrapper_grad_correct_no_conversion ks tail xs ts : 1 <= prod tail -> (forall x, In x xs -> length x = prod tail) ->
+  fq_outputs ks false (length xs :: tail) (concat xs) = map (fquad_out ks) xs /\
+  fq_gradients ks false (length xs :: tail) xs ts = map2 (fquad_grad ks) xs ts.
+Proof. intros. split; [apply fq_outputs_last | apply fq_gradients_last]; assumption. Qed.
+
+Lemma channel_first_rule_full req mods :
+  init_channel_first req mods = channel_first_spec req mods /\ (init_channel_first None mods = true <-> In LConv2d mods).
+Proof. split; [apply channel_first_rule | apply channel_first_auto]. Qed.
+
+Definition bs_ok (bs : option nat) : Prop := match bs with Some b => 1 <= b | None => True end.
+
+Lemma callable_equals_keras (f : list Qc -> list Qc) K bs inputs targets :
+  1 <= length inputs -> targets_ok K inputs targets -> (forall x, length (f x) = K) -> bs_ok bs ->
+  batch_one_hot_callable (model_2d f) bs inputs targets = Some (keras_scores f inputs targets) /\
+  batch_one_hot_callable (model_squeezed f) bs inputs targets = Some (keras_scores f inputs targets).
+Proof.
+  intros Hn Ht Hf Hbs. split.
+  - apply (callable_batched _ f K); try assumption. intros. apply (callable_2d f K); assumption.
+  - apply (callable_batched _ f K); try assumption. intros. apply (callable_squeezed f K); assumption.
+Qed.
+
+Lemma callable_1d_equals_keras (f1 : list Qc -> Qc) bs inputs targets :
+  1 <= length inputs -> targets_ok 1 inputs targets -> bs_ok bs ->
+  batch_one_hot_callable (model_1d f1) bs inputs targets = Some (keras_scores (fun x => [f1 x]) inputs targets) /\
+  keras_scores (fun x => [f1 x]) inputs targets = map2 (fun x t => (f1 x * nthq t 0 + 0)%Qc) inputs targets.
+Proof.
+  intros Hn Ht Hbs. split; [|apply keras_scores_single].
+  apply (callable_batched _ (fun x => [f1 x]) 1); try assumption. intros. apply callable_1d; assumption.
+Qed.
